@@ -48,6 +48,9 @@ OTHER_FILES = ["p.txt", "q.bin", "r"]
 OTHER_DIRS = ["other", "skipold", "keep"]
 
 BACKENDS = ["mem-mem", "mem-os", "os-mem", "sub-sub"]
+# source and destination are the SAME filesystem object: the source tree lives under /src, the
+# destination tree under /dst, a bystander under /by (copy_file_internal's `src_fs is dst_fs` path)
+SAME_BACKENDS = ["same-mem", "same-os", "same-sub"]
 WALKERS = ["none", "filter", "exclude_dirs", "max_depth"]
 CONDITIONS = ["always", "newer", "older", "exists", "not_exists"]
 RELATIONS = ["empty", "disjoint", "overlapping", "conflicting"]
@@ -174,7 +177,21 @@ class Pair(object):
         self.kind = kind
         self.tmp = []
         self.parent = None
-        if kind == "sub-sub":
+        if kind.startswith("same-"):
+            if kind == "same-mem":
+                f = MemoryFS()
+            elif kind == "same-os":
+                d = tempfile.mkdtemp(prefix="pyfs2verif_c19_")
+                self.tmp.append(d)
+                f = OSFS(d)
+            else:
+                self.parent = MemoryFS()
+                self.parent.makedirs("root")
+                self.parent.makedirs("other/deep")
+                self.parent.writebytes("other/deep/keep.txt", b"keep")
+                f = self.parent.opendir("root")
+            self.src = self.dst = f
+        elif kind == "sub-sub":
             self.parent = MemoryFS()
             self.parent.makedirs("s")
             self.parent.makedirs("d")
@@ -319,6 +336,28 @@ def cond_holds(cond, src_m, dst_entry):
 
 # --------------------------------------------------------------------------- one case
 
+def effective(case):
+    """For the same-filesystem backends the generated trees are re-rooted: source under /src,
+    destination under /dst, plus a bystander /by/keep.txt; paths of the call are re-rooted alike."""
+    if not case["backend"].startswith("same-"):
+        return case
+    c = dict(case)
+    src = {"/src": ["d"]}
+    for q, nd in case["src"].items():
+        src["/src" + q] = nd
+    dst = {"/dst": ["d"], "/by": ["d"], "/by/keep.txt": ["f", 7, 0]}
+    for q, nd in case["dst"].items():
+        dst["/dst" + q] = nd
+    c["src"], c["dst"] = src, dst
+    if "src_path" in case:
+        c["src_path"] = "/src" + (case["src_path"] or "")
+        c["dst_path"] = "/dst" + (case["dst_path"] or "")
+    if "file" in case:
+        c["file"] = "/src" + case["file"]
+        c["dst_file"] = "/dst" + case["file"]
+    return c
+
+
 def run_case(case):
     """case: dict(fn, backend, src, dst, walker, cond, preserve_time, workers, src_path, dst_path,
     file (copy_file_if), copy_if_newer (mirror)).  Returns a list of failure dicts."""
@@ -329,6 +368,9 @@ def run_case(case):
 
     def bad(kind, **kw):
         fails.append(dict(kind=kind, **kw))
+    orig_case = case
+    case = effective(case)
+    same = case["backend"].startswith("same-")
     pair = Pair(case["backend"])
     try:
         src_spec = dict((k, v) for k, v in case["src"].items())
@@ -337,7 +379,13 @@ def run_case(case):
         build(pair.dst, dst_spec, "D")
         src_before = snap(pair.src)
         before = snap(pair.dst)
-        if src_before != spec_state(src_spec, "S") or before != spec_state(dst_spec, "D"):
+        if same:
+            union = spec_state(src_spec, "S")
+            union.update(spec_state(dst_spec, "D"))
+            if before != union:
+                bad("harness-build-mismatch")
+                return fails
+        elif src_before != spec_state(src_spec, "S") or before != spec_state(dst_spec, "D"):
             bad("harness-build-mismatch")
             return fails
         outside_before = pair.outside()
@@ -367,8 +415,11 @@ def run_case(case):
                 else:
                     fs.copy.copy_dir_if(pair.src, sp, pair.dst, dp, case["cond"], **kw)
             elif fn == "copy_file_if":
-                result = fs.copy.copy_file_if(pair.src, case["file"], pair.dst, case["file"], case["cond"],
-                                              preserve_time=pt)
+                result = fs.copy.copy_file_if(pair.src, case["file"], pair.dst, case.get("dst_file", case["file"]),
+                                              case["cond"], preserve_time=pt)
+            elif fn == "copy_file":
+                fs.copy.copy_file(pair.src, case["file"], pair.dst, case.get("dst_file", case["file"]),
+                                  preserve_time=pt)
             elif fn == "mirror":
                 fs.mirror.mirror(pair.src, pair.dst, walker=make_walker(wkind), copy_if_newer=case["copy_if_newer"],
                                  workers=workers, preserve_time=pt)
@@ -378,15 +429,15 @@ def run_case(case):
             raised = common.exc_name(e)
             raised_msg = str(e)[:160]
         after = snap(pair.dst)
-        if snap(pair.src) != src_before:
-            bad("source-changed")
+        if not same and snap(pair.src) != src_before:
+            bad("source-changed")           # (same filesystem: covered by the 'unrelated-changed' check)
         if pair.outside() != outside_before:
             bad("outside-subfs-changed")
         if raised is not None and raised.startswith("crash:"):
             bad("exception", exc=raised, message=raised_msg)
             return fails
         # harness self-check: the reference selection must agree with the real Walker
-        if fn != "copy_file_if":
+        if fn not in ("copy_file_if", "copy_file"):
             from fs.walk import Walker
             start = case.get("src_path", "") if fn.startswith("copy_dir") else ""
             w = make_walker(wkind) or Walker()
@@ -396,6 +447,8 @@ def run_case(case):
                 return fails
         if fn == "mirror":
             check_mirror(case, pair, src_spec, before, after, raised, fails)
+            if "_second_pass_calls" in case:
+                orig_case["_second_pass_calls"] = case["_second_pass_calls"]
         else:
             check_copy(case, src_spec, before, after, raised, calls, result, fails)
     finally:
@@ -410,14 +463,17 @@ def check_copy(case, src_spec, before, after, raised, calls, result, fails):
     cond = case.get("cond", "always") if fn.endswith("_if") else "always"
     pt = bool(case.get("preserve_time"))
     wkind = case.get("walker", "none")
-    if fn == "copy_file_if":
+    single = fn in ("copy_file_if", "copy_file")
+    if single:
         start, dst_path = "", ""
-        files, dirs = [case["file"]], []
+        dirs = []
+        dst_file = case.get("dst_file", case["file"])
+        tfile = {dst_file: case["file"]}
     else:
         start = case.get("src_path", "") if fn.startswith("copy_dir") else ""
         dst_path = case.get("dst_path", "") if fn.startswith("copy_dir") else ""
         files, dirs = selected(src_spec, start, wkind)
-    tfile = dict((target(start, dst_path, p), p) for p in files)
+        tfile = dict((target(start, dst_path, p), p) for p in files)
     tdirs = set(target(start, dst_path, p) for p in dirs)
     allowed_new_dirs = set(tdirs)
     if dst_path:
@@ -427,8 +483,8 @@ def check_copy(case, src_spec, before, after, raised, calls, result, fails):
     # a file in the way of dst_path; copy_file_if into a missing directory
     conflicts = [t for t in tfile if before.get(t, (None,))[0] == "d"]
     conflicts += [t for t in allowed_new_dirs if before.get(t, (None,))[0] == "f"]
-    if fn == "copy_file_if":
-        par = parents(case["file"])
+    if single:
+        par = parents(dst_file)
         if par and before.get(par[0], (None,))[0] != "d":
             conflicts.append(par[0])
     expect = {}
@@ -475,10 +531,12 @@ def check_copy(case, src_spec, before, after, raised, calls, result, fails):
         bad("unexpected-new-resource", path=q, state=after[q])
     if strict:
         if fn == "copy_file_if":
-            if result is not (case["file"] in copied):
-                bad("return-value", returned=result, copied=case["file"] in copied)
-            if result is not expect[case["file"]]:
-                bad("return-value-vs-condition", returned=result, expected=expect[case["file"]])
+            if result is not (dst_file in copied):
+                bad("return-value", returned=result, copied=dst_file in copied)
+            if result is not expect[dst_file]:
+                bad("return-value-vs-condition", returned=result, expected=expect[dst_file])
+        elif fn == "copy_file":
+            pass
         else:
             want_calls = sorted((p, t) for t, p in tfile.items() if expect[t])
             if sorted(calls) != want_calls or len(set(calls)) != len(calls):
@@ -576,6 +634,8 @@ def signature(case, fails):
                                 "shadowing-file" if b is not None and b[0] == "f" else "directory-not-created")
     if first == "mtime-not-preserved" and case.get("workers"):
         sig += " workers>0"
+    if case["backend"].startswith("same-"):
+        sig += " (same filesystem object)"
     if first in ("file-not-copied", "file-copied-against-condition", "return-value-vs-condition"):
         sig += " cond=" + case.get("cond", "always")
     return sig
@@ -608,8 +668,9 @@ def shrink(case, sig, budget=120):
                     break
             if progress:
                 break
-    for key, val in (("workers", 0), ("preserve_time", False), ("backend", "mem-mem"), ("src_spelling", 0),
-                     ("dst_spelling", 0)):
+    for key, val in (("workers", 0), ("preserve_time", False),
+                     ("backend", "same-mem" if case["backend"].startswith("same-") else "mem-mem"),
+                     ("src_spelling", 0), ("dst_spelling", 0)):
         if cur.get(key) not in (val, None):
             cand = dict(cur)
             cand[key] = val
@@ -677,6 +738,34 @@ def explore(tier, seed):
                 for c in CONDITIONS:
                     cases.append(dict(backend=be, src=src, dst=dst, relation=rel, fn="copy_file_if", file=p, cond=c,
                                       preserve_time=rnd.random() < 0.5))
+    # ---- source and destination are the same filesystem object
+    n_same = 90 if thorough else 9
+    same_pairs = [(hand_src, pairs[1][1], "overlapping"), (hand_src, {}, "empty")]
+    for i in range(n_same):
+        rel = ["empty", "disjoint", "overlapping", "overlapping", "conflicting"][i % 5]
+        src = gen_src(rnd, rnd.randint(1, 10))
+        same_pairs.append((src, gen_dst(rnd, src, rel), rel))
+    for i, (src, dst, rel) in enumerate(same_pairs):
+        hand = i < 2
+        for be in (SAME_BACKENDS if (hand or thorough) else [SAME_BACKENDS[i % 3]]):
+            base = dict(backend=be, src=src, dst=dst, relation=rel)
+            sdirs = [""] + [q for q in sorted(src) if src[q][0] == "d"]
+            ddirs = ["", "/into", "/into/new"] + [q for q in sorted(dst) if dst[q][0] == "d"]
+            sfiles = [q for q in sorted(src) if src[q][0] == "f"]
+            for pt in (False, True):
+                for workers in (0, 2):
+                    w = "none" if hand or rnd.random() < 0.6 else rnd.choice(WALKERS[1:])
+                    sp, dp = ("", "") if hand else (rnd.choice(sdirs), rnd.choice(ddirs))
+                    ss, ds = (0, 0) if hand else (rnd.choice([0, 0, 1, 2, 3]), rnd.choice([0, 0, 1, 2, 3]))
+                    cases.append(dict(base, fn="copy_dir", walker=w, src_path=sp, dst_path=dp, preserve_time=pt,
+                                      workers=workers, src_spelling=ss, dst_spelling=ds))
+                    for c in CONDITIONS:
+                        cases.append(dict(base, fn="copy_dir_if", walker=w, src_path=sp, dst_path=dp, cond=c,
+                                          preserve_time=pt, workers=workers, src_spelling=ss, dst_spelling=ds))
+                for q in (sfiles if (hand or thorough) else rnd.sample(sfiles, min(len(sfiles), 2))):
+                    cases.append(dict(base, fn="copy_file", file=q, preserve_time=pt))
+                    for c in CONDITIONS:
+                        cases.append(dict(base, fn="copy_file_if", file=q, cond=c, preserve_time=pt))
     return cases
 
 
@@ -742,7 +831,10 @@ def coverage_of(cases, failures, sigs):
         evaluations=len(cases), distinct_nontrivial=len(distinct),
         rule="5 hand-made + random (source, destination) tree pairs cycling through the relations empty / disjoint "
              "/ overlapping (per-file time relation older|equal|newer, some sizes differing) / conflicting (file vs "
-             "directory both ways) x backend pairs {mem-mem, mem-os, os-mem, sub-sub (two SubFS of one MemoryFS)} x "
+             "directory both ways) x backend pairs {mem-mem, mem-os, os-mem, sub-sub (two SubFS of one MemoryFS)} "
+             "+ same-filesystem-object cases {same-mem, same-os, same-sub: source under /src, destination under "
+             "/dst, bystander /by; copy_file, copy_file_if, copy_dir, copy_dir_if x 5 conditions x preserve_time x "
+             "workers 0/2} x "
              "walkers {default, filter=['*.txt'], exclude_dirs=['skip*'], max_depth=1} x preserve_time x "
              "{copy_fs, copy_fs_if x 5 conditions, copy_dir / copy_dir_if with random source directory and "
              "destination path (root, existing directory, new nested path), mirror copy_if_newer False/True, "
